@@ -146,11 +146,11 @@ def refAt (ctx : Ctx) (n : Node) (p : List Crumb) : Out := refChild (refRun ctx 
 inductive TreeOut where
   | win (a : Answer)     -- a rule matched; `a` is its action
   | stopped (c : Code)   -- an ACL ended the check
-  | nomatch
+  | noRule
   deriving DecidableEq, Repr, Inhabited
 
 def refTreeAt (ctx : Ctx) : Rules → Nat → List Nat → TreeOut
-  | [], _, _ => .nomatch
+  | [], _, _ => .noRule
   | _ :: rest, skip + 1, ps => refTreeAt ctx rest skip ps
   | (a, n) :: rest, 0, ps =>
     if ctx.isBanned a then refTreeAt ctx rest 0 ps
@@ -167,7 +167,7 @@ def treeAt (ctx : Ctx) (rules : Rules) (p : List Crumb) : TreeOut :=
 def answerOf (rules : Rules) : TreeOut → Answer
   | .win a => a
   | .stopped c => { code := c }
-  | .nomatch => implicitAnswer rules
+  | .noRule => implicitAnswer rules
 
 /-! ### the resumption specification at the start is the reference evaluator -/
 mutual
